@@ -49,7 +49,7 @@ Definition value_eqb (a b : value) : bool :=
 Definition assert_equal_present (vs : list value) : result unit :=
   match filter (fun v => match v with VNone => false | _ => true end) vs with
   | [] => Ok tt
-  | v :: r => if forallb (value_eqb v) r then Ok tt else Err EAssert
+  | v :: r => if forallb (value_eqb v) r then Ok tt else Err ELib
   end.
 
 Definition last_of (l : list value) : option value :=
